@@ -33,7 +33,9 @@ type Program struct {
 	initMu    sync.Mutex
 }
 
-const repoRoot = "/repo"
+// repoRoot is the tree under verification: /repo, or a scratch copy named by
+// VERIF_REPO (used only to try seeded changes without touching /repo).
+var repoRoot = "/repo"
 
 // harnessOverlay maps harness source files under /verif/harness/<pkgdir>/ to
 // virtual files inside the repository package directories.
